@@ -136,7 +136,7 @@ class Observer:
                 if key is not None:
                     try:
                         decrypt_data(derive_phase_key(key, m["side"], phase), body)
-                    except CryptoError:
+                    except Exception:     # CryptoError at HEAD; whatever the implementation raises, it did not open
                         good = 0
                 else:
                     # no key yet: whether it will open under the key the holder of our code computes is
@@ -268,7 +268,7 @@ class Observer:
                             continue
                         try:
                             decrypt_data(derive_phase_key(c.boss._R._key, sd, ph), body)
-                        except CryptoError:
+                        except Exception:     # CryptoError at HEAD; whatever the implementation raises, it did not open
                             ok = False
                     parts = line.split(" ")
                     parts[3] = "1" if ok else "0"
